@@ -45,6 +45,21 @@ var _ streamDeadlineSetter = (*verifsim.NStream)(nil)
 type txFile struct {
 	P string `json:"p"`
 	N int    `json:"n"`
+	// Link: P is a symbolic link to this file of the tree (path relative to the tree
+	// root); N is the target's size. A reader of the hosted tree sees the target's bytes.
+	Link string `json:"symlink_to,omitempty"`
+}
+
+// fsName: the name as it is on disk (a spec spells the byte 0xE9, which is not valid
+// UTF-8 on its own, as %E9).
+func fsName(p string) string { return strings.ReplaceAll(p, "%E9", "\xe9") }
+
+// seedPath: the path the content of f is derived from.
+func (f txFile) seedPath() string {
+	if f.Link != "" {
+		return f.Link
+	}
+	return f.P
 }
 
 func fileContent(seed uint64, path string, n int) []byte {
@@ -64,14 +79,24 @@ func writeTree(root string, seed uint64, files []txFile, dirs []string) error {
 		return err
 	}
 	for _, d := range dirs {
-		if err := os.MkdirAll(filepath.Join(root, filepath.FromSlash(d)), 0o755); err != nil {
+		if err := os.MkdirAll(filepath.Join(root, filepath.FromSlash(fsName(d))), 0o755); err != nil {
 			return err
 		}
 	}
 	for _, f := range files {
-		p := filepath.Join(root, filepath.FromSlash(f.P))
+		p := filepath.Join(root, filepath.FromSlash(fsName(f.P)))
 		if err := os.MkdirAll(filepath.Dir(p), 0o755); err != nil {
 			return err
+		}
+		if f.Link != "" {
+			rel, err := filepath.Rel(filepath.Dir(p), filepath.Join(root, filepath.FromSlash(fsName(f.Link))))
+			if err != nil {
+				return err
+			}
+			if err := os.Symlink(rel, p); err != nil {
+				return err
+			}
+			continue
 		}
 		if err := os.WriteFile(p, fileContent(seed, f.P, f.N), 0o644); err != nil {
 			return err
@@ -158,14 +183,14 @@ func expectedDigest(prefix string, seed uint64, files []txFile, dirs []string) [
 		return prefix + "/" + p
 	}
 	for _, d := range dirs {
-		addDir(join(d))
+		addDir(join(fsName(d)))
 	}
 	for _, f := range files {
-		p := join(f.P)
+		p := join(fsName(f.P))
 		if i := strings.LastIndexByte(p, '/'); i >= 0 {
 			addDir(p[:i])
 		}
-		h := sha256.Sum256(fileContent(seed, f.P, f.N))
+		h := sha256.Sum256(fileContent(seed, f.seedPath(), f.N))
 		out = append(out, fmt.Sprintf("F %s %d %s", p, f.N, hex.EncodeToString(h[:8])))
 	}
 	sort.Strings(out)
